@@ -137,6 +137,9 @@ CORPUS = [
     ("corpus-lattice-matrix", "lattice matrix\n1 0 -1 u=10 lat=1 fill=0:1 0:2 0:0 2 3 4 5 6 7 imp:n=1\n2 0 -2 u=2 imp:n=1\n3 0 -2 u=3 imp:n=1\n"
      "4 0 -2 u=4 imp:n=1\n5 0 -2 u=5 imp:n=1\n6 0 -2 u=6 imp:n=1\n7 0 -2 u=7 imp:n=1\n8 0 -3 fill=10 imp:n=1\n9 0 3 imp:n=0\n\n"
      "1 rpp -1 1 -1 1 -1 1\n2 so 5\n3 so 50\n\nmode n\n\n"),
+    # d6a51a3: a tally segment input with both options (T and C) lost them, and the comment behind them
+    ("corpus-fs-both-options", "fs both options\n1 0 -1 imp:n=1\n2 0 1 imp:n=0\n\n1 so 1\n2 so 2\n\nmode n\nf4:n 1\nfs4 -1 -2 T C $ total, cumulative\n"
+     "f14:n 1\nfs14 -2 t c\nsd4 1 1 1 1\n\n"),
     # 3f161a1: the line break after a cell modifier's value was replaced by a blank
     ("corpus-modifier-line-break", "line break after vol\n837 0 (927 :     113 ) 8   113    113 -8   imp:n=2.0000     Imp:P=1 vol=31.0\n     U 20\n"
      "2 0 -8 imp:n,p=1 u=20\n\n8 so 1\n113 so 2\n927 so 3\n\nmode n p\n\n"),
